@@ -149,8 +149,8 @@ impl Property for HistProp {
     }
     fn cases(&self, tier: Tier) -> u64 {
         match tier {
-            Tier::Quick => 600_000,
-            Tier::Thorough => 10_000_000,
+            Tier::Quick => 2_000_000,
+            Tier::Thorough => 20_000_000,
         }
     }
     fn floors(&self, _tier: Tier) -> Vec<(&'static str, f64)> {
